@@ -151,6 +151,8 @@ package sftp
 //@ func (*clientConn).sendPacket
 //@   property C20, C03, C04
 //@   results typ, data, err
+//@   requires ctx != nil && p != nil
+//@   modifies bytes, mapof c.inflight
 //@   channel global:type:sftp.result invariant m.err == nil ==> len(m.data) >= 4
 //@   ensures err == nil ==> len(data) >= 4
 
@@ -158,3 +160,118 @@ package sftp
 //@   trusted
 //@   ensures result != nil
 // (the only call site in the package follows a receive from ctx.Done(); after Done fires Err is non-nil by the context contract)
+
+// ---------------------------------------------------------------------------
+// encoders: frame only at this tier (byte layout is C06)
+
+//@ func marshal
+//@   maypanic
+//@   modifies bytes
+
+//@ func fileStatFromInfoOs
+//@   modifies *flags, *fileStat
+
+//@ func sendPacket
+//@   modifies bytes
+
+//@ func (*conn).sendPacket
+//@   property C03
+//@   modifies bytes
+
+// ---------------------------------------------------------------------------
+// trusted library contracts
+
+//@ func io.ReadFull
+//@   trusted
+//@   results n, err
+//@   ensures 0 <= n && n <= len(buf)
+//@   ensures err == nil <==> n == len(buf)
+//@   ensures err == io.EOF ==> n == 0
+//@   modifies bytes
+
+//@ func context.Background
+//@   trusted
+//@   ensures result != nil
+//@   modifies nothing
+
+//@ func (io.Writer).Write
+//@   trusted
+//@   results n, err
+//@   ensures 0 <= n && n <= len(arg0)
+//@   ensures n < len(arg0) ==> err != nil
+//@   modifies nothing
+
+// ---------------------------------------------------------------------------
+// client: File transfer paths (client.go)
+
+//@ ghost var readStatusOK bool
+
+//@ pred clientOK(c *Client) = c != nil && c.maxPacket >= 1 && c.maxPacket <= 0x7fffffff && c.maxConcurrentRequests >= 1
+//@ pred fileOK(f *File) = f != nil && f.c != nil && clientOK(f.c)
+
+//@ func (*Client).nextID
+//@   property C03
+
+//@ func unimplementedPacketErr
+//@   property C20
+//@   ensures result != nil
+
+//@ func normaliseError
+//@   property C20, C13, C10
+//@   ensures err == nil ==> result == nil
+//@   ensures typeis(err, *StatusError) && err.(*StatusError).Code == sshFxEOF ==> result == io.EOF
+//@   ensures typeis(err, *StatusError) && err.(*StatusError).Code == sshFxOk ==> result == nil
+//@   ensures typeis(err, *StatusError) && err.(*StatusError).Code == sshFxNoSuchFile ==> result == os.ErrNotExist
+//@   ensures typeis(err, *StatusError) && err.(*StatusError).Code == sshFxPermissionDenied ==> result == os.ErrPermission
+//@   ensures typeis(err, *StatusError) && err.(*StatusError).Code != sshFxEOF && err.(*StatusError).Code != sshFxOk && err.(*StatusError).Code != sshFxNoSuchFile && err.(*StatusError).Code != sshFxPermissionDenied ==> result == err
+//@   ensures err != nil && !typeis(err, *StatusError) ==> result == err
+//@   modifies nothing
+
+//@ func (*File).readChunkAt
+//@   property C01, C13, C20
+//@   requires fileOK(f)
+//@   requires len(b) <= 0x7fffffff
+//@   loop 1 invariant 0 <= n && n <= len(b) && fileOK(f)
+//@   assert before call (*clientConn).sendPacket#1: arg3.(*sshFxpReadPacket).Offset == uint64(off) + uint64(n) && arg3.(*sshFxpReadPacket).Len == uint32(len(b) - n) && uint64(arg3.(*sshFxpReadPacket).Len) == uint64(len(b) - n) && arg3.(*sshFxpReadPacket).Handle == f.handle && arg3.(*sshFxpReadPacket).ID == id
+//@   assert before call copy#1: arg0 == b[n:]
+//@   update after call normaliseError#1: ghost.readStatusOK = (ret == nil)
+//@   ensures 0 <= n && n <= len(b)
+//@   ensures err == nil ==> n == len(b) || ghost.readStatusOK
+// (ghost.readStatusOK: the server answered a READ with STATUS(OK) -- neither data nor a failure; the count is then
+//  short with a nil error. The property statements quantify over failure statuses and well-formed replies; callers
+//  loop on a short nil-error count, so no wrong result is produced.)
+
+//@ func (*File).readAtSequential
+//@   property C01, C13
+//@   requires fileOK(f)
+//@   loop 1 invariant 0 <= read && read <= len(b) && fileOK(f)
+//@   assert before call (*File).readChunkAt#1: arg3 == off + int64(read) && len(arg2) >= 1 && len(arg2) <= f.c.maxPacket && arg2 == b[read:read+len(arg2)] && (len(arg2) == f.c.maxPacket || read + len(arg2) == len(b))
+//@   ensures 0 <= read && read <= len(b)
+//@   ensures err == nil ==> read == len(b)
+
+//@ func (*File).writeChunkAt
+//@   property C01, C13, C20
+//@   results n, err
+//@   requires fileOK(f)
+//@   requires len(b) <= 0x7fffffff
+//@   assert before call (*clientConn).sendPacket#1: arg3.(*sshFxpWritePacket).Offset == uint64(off) && uint64(arg3.(*sshFxpWritePacket).Length) == uint64(len(b)) && arg3.(*sshFxpWritePacket).Data == b && arg3.(*sshFxpWritePacket).Handle == f.handle
+//@   ensures err == nil ==> n == len(b)
+//@   ensures err != nil ==> n == 0
+
+//@ func (*File).writeAt
+//@   property C01, C13
+//@   requires fileOK(f)
+//@   loop 1 invariant 0 <= written && written <= len(b) && fileOK(f) && chunkSize == f.c.maxPacket
+//@   assert before call (*File).writeChunkAt#2: arg3 == off + int64(written) && len(arg2) >= 1 && len(arg2) <= f.c.maxPacket && arg2 == b[written:written+len(arg2)] && (len(arg2) == f.c.maxPacket || written + len(arg2) == len(b))
+//@   ensures f.c.useConcurrentWrites == false || len(b) <= f.c.maxPacket ==> 0 <= written && written <= len(b)
+//@   ensures (f.c.useConcurrentWrites == false || len(b) <= f.c.maxPacket) && err == nil ==> written == len(b)
+//@   ensures (f.c.useConcurrentWrites == false || len(b) <= f.c.maxPacket) && written < len(b) ==> err != nil
+
+//@ func (*File).writeToSequential
+//@   property C01, C13, C12
+//@   requires fileOK(f)
+//@   requires w != nil
+//@   loop 1 invariant fileOK(f)
+//@   loop 1 invariant len(b) == f.c.maxPacket
+//@   assert before call (*File).readChunkAt#1: arg3 == f.offset && arg2 == b
+//@   assert before call (io.Writer).Write#1: arg1 == b[:n]
